@@ -10,6 +10,9 @@ RT = LK = UT = PT = None
 ATTR = values.Domain([ord(c) for c in "${}'\"a b"])
 
 
+from symx.values import SymChar
+
+
 def setup():
     global RT, LK, UT, PT
     C13.setup()
@@ -100,6 +103,26 @@ def h_attr(n):
     return h
 
 
+ATTR_SKELETONS = ["?${?}", "${?}?", "?${?}?", "${?}${?}", "?${?}?${?}"]
+
+
+def h_attr_skeleton(k):
+    """the attribute value is a mixture of text and ${} by construction; every ? is a symbolic character of the domain"""
+    def h(p):
+        PT.ast = common.stub_ast_namespace()
+        items = []
+        for j, c in enumerate(ATTR_SKELETONS[k]):
+            items.append(values.new_char("v%d" % j, ATTR) if c == "?" else c)
+        v = SymStr(items)
+        tag = PT.Tag.__new__(PT.IncludeTag)
+        PT.Node.__init__(tag, source="", lineno=1, pos=1, filename=None)
+        tag.keyword = "x"
+        tag.attributes = {"file": v}
+        tag._parse_attributes(("file",), ())
+        return dict(v=v, parsed=tag.parsed_attributes["file"])
+    return h
+
+
 def on_attr(p, r, exc, acc):
     if exc is not None:
         acc.candidate(kind="attribute-exception", input=None, detail="%s: %s" % (type(exc).__name__, str(exc)[:200]))
@@ -118,12 +141,20 @@ def on_attr(p, r, exc, acc):
         if kind == "lit":
             exp.extend(values._items(loader.sx_repr(SymStr(it))))
         else:
-            exp.extend(["("] + list(it) + [")"])
+            # a sole ${} is passed as the value it is; in a mixture every ${} is converted to text before the concatenation
+            exp.extend((list("str") if len(pieces) > 1 else []) + ["("] + list(it) + [")"])
     if not pieces:
         exp = list(repr(""))
     acc.vcs += 1
     st, mod = p.vc(str_eq_term(parsed, SymStr(exp)))
     if st == "fails":
+        # prefer a counterexample whose expressions are identifiers (a, b) and whose text has no quote: it can be rendered
+        nice = [z3.Or(c.v == ord("a"), c.v == ord("b")) for kind, it in pieces for c in it if kind == "expr" and isinstance(c, SymChar)]
+        nice += [z3.And(c.v != ord("'"), c.v != ord('"')) for kind, it in pieces for c in it if kind == "lit" and isinstance(c, SymChar)]
+        if nice:
+            st2, mod2 = p.vc(z3.Or(str_eq_term(parsed, SymStr(exp)), z3.Not(z3.And(nice))))
+            if st2 == "fails":
+                mod = mod2
         acc.candidate(kind="attribute-pieces", input=dict(attribute=v.concretize(mod)),
                       detail="emitted %r, expected %r" % (parsed.concretize(mod), SymStr(exp).concretize(mod)))
     acc.sample(dict(attribute=v.concretize(m), emitted=parsed.concretize(m)))
@@ -152,17 +183,21 @@ if "attribute" in CASE:
     if '"' in a:
         print("double quote inside a double-quoted attribute: not expressible"); sys.exit(0)
     tmpl = '<%def name="d(x)">[${x}]</%def><%self:d x="' + a + '"></%self:d>'
-    class V(dict):
-        pass
+    class V:
+        # a value that is not a string (its text is <name>)
+        def __init__(self, nm): self.nm = nm
+        def __str__(self): return "<%s>" % self.nm
     ctx = {}
     import ast
     try:
         t = Template(tmpl)
-        got = t.render(**{nm: "<%s>" % nm for nm in names if nm.isidentifier()})
+        got = t.render(**{nm: V(nm) for nm in names if nm.isidentifier()})
         print("rendered", repr(got), "expected", repr("[" + want + "]"))
         if all(nm.isidentifier() for nm in names) and got != "[" + want + "]": bad = "attribute pieces not passed in order"
     except Exception as e:
         print("template failed:", type(e).__name__, e)
+        if all(nm.isidentifier() for nm in names) and isinstance(e, TypeError) and len([x for x in pieces if x]) > 1:
+            bad = "a mixture of text and a ${} whose value is not a string is not concatenated: %s" % e
 else:
     from props.render_step import TEMPLATE_FULL as TEMPLATE, INC, ALL_SITES as SITES, Boom
     site = CASE["site"]
@@ -199,7 +234,7 @@ def run(check, tier):
         "buffered/captured content only through the return value), lower buffers untouched, both stacks and nextcaller restored, and the "
         "enclosing def still sees its own caller" % len(RS.SITES),
         "attribute values: Tag._parse_attributes runs on a symbolic attribute value over {$ { } ' \" a b space}; the reference splits it into "
-        "literal runs and ${e} expressions (values with nested or stray braces are outside its domain); repr() of symbolic text is the engine's model of Python's repr")
+        "literal runs and ${e} expressions (values with nested or stray braces are outside its domain), a sole ${e} is the value itself, in a mixture every ${e} is converted with str() before the concatenation; besides fully symbolic values of bounded length, skeletons that are mixtures by construction (ATTR_SKELETONS_PLACEHOLDER, ? symbolic); repr() of symbolic text is the engine's model of Python's repr")
     check.not_claimed("Python argument-binding rules of re-emitted signatures (FunctionDecl.get_argument_expressions)",
                       "closure generation for arbitrary nesting shapes")
     jobs = []
@@ -209,6 +244,9 @@ def run(check, tier):
         jobs.append(("C05-h-" + site, h_site(site, True), on_site, "construct %s inlined in a def that then uses its caller" % site, dict(site=site), ("ran",)))
     for n in range(0, {"quick": 3, "thorough": 5}[tier] + 1):
         jobs.append(("C05-attr-%d" % n, h_attr(n), on_attr, "tag attribute value of %d symbolic characters" % n, dict(chars=n), ("asserted",) if n in (0, 1) else ()))
+    for k in range(len(ATTR_SKELETONS) if tier == "thorough" else 3):
+        jobs.append(("C05-attr-mix-%d" % k, h_attr_skeleton(k), on_attr, "tag attribute value %s (? symbolic)" % ATTR_SKELETONS[k],
+                     dict(skeleton=ATTR_SKELETONS[k]), ("asserted",)))
     for j in jobs:
         driver.register(j[0], j[1], j[2])
     cands = []
